@@ -60,53 +60,108 @@ def check_file(ctx, rep, name, src_remote):
             srcv = var
         else:
             dstv = var
-    # R20.2 loop
-    loops = [n for n in A.walk(f.node) if isinstance(n, ast.While)]
-    if len(loops) != 1 or srcv is None or dstv is None:
-        rep.ob("R20.2", "%s: a single copy loop over the two open files" % name, False, "copy loop not found", f.loc)
+    # R20.2: the copy loop, wherever it lives (in this function or in a helper that is handed both files)
+    if srcv is None or dstv is None:
+        rep.ob("R20.2", "%s: a single copy loop over the two open files" % name, False, "the open files are not bound to names", f.loc)
         return f
-    lp = loops[0]
-    reads = [n for n in A.walk(lp) if isinstance(n, ast.Assign) and isinstance(n.value, ast.Call)
-             and A.call_name(n.value) == "%s.read" % srcv]
-    okr = len(reads) == 1 and isinstance(reads[0].targets[0], ast.Name) and \
-        [A.src(a) for a in reads[0].value.args] == ["chunk_size"]
-    rep.ob("R20.2", "%s: each iteration reads one chunk of chunk_size from the source" % name, okr,
-           "`%s`" % A.norm(reads[0]) if okr else "the source is not read as `buf = src.read(chunk_size)` once per iteration",
-           ctx.loc(lp))
-    if not okr:
-        return f
-    buf = reads[0].targets[0].id
-    g = ctx.cfg(f, raises=lambda a, k: set())
-    rnode = [n for n in g.live if n.ast is reads[0]][0]
-    wnodes = [n for n in g.live if n.kind == "stmt" and n.ast is not None and any(
-        A.call_name(c) == "%s.write" % dstv and [A.src(x) for x in c.args] == [buf] for c in A.calls(n.ast))]
-    tests = [n for n in g.live if n.kind == "test" and isinstance(n.ast, ast.Name) and n.ast.id == buf]
-    okt = len(tests) == 1
-    if okt:
-        t = tests[0]
-        # empty chunk -> leaves the loop (and only then); non-empty -> written before the next read
-        empty_succ = [s for s, l in t.succ if l == "false"]
-        full_succ = [s for s, l in t.succ if l == "true"]
-        leaves = all(rnode not in Q.reach([s]) for s in empty_succ)
-        p = None
-        for s in full_succ:
-            p = Q.find_path(s, [rnode, g.exit], avoid=wnodes, skip_first=False)
-        okt = leaves and p is None and bool(wnodes)
-    rep.ob("R20.2", "%s: an empty chunk ends the copy; every other chunk is written, unchanged, before the next read" % name, okt,
-           "`if not %s: break` / `%s.write(%s)`" % (buf, dstv, buf) if okt else
-           "a chunk can be skipped, written twice or the loop can end before the source is exhausted", ctx.loc(lp))
-    exits = [n for n in A.walk(lp) if isinstance(n, (ast.Break, ast.Return))]
-    oke = len(exits) == 1 and isinstance(exits[0]._parent, ast.If) and A.src(exits[0]._parent.test) in (
-        "not %s" % buf, "len(%s) == 0" % buf, "%s == b''" % buf)
-    rep.ob("R20.2", "%s: the emptiness test is the loop's only exit" % name, oke,
-           "single `break` under `not %s`" % buf if oke else "the copy loop has another exit (short files)", ctx.loc(lp), kind="site")
-    # the write comes after the emptiness test on the same chunk (no stale buffer)
-    dom = Q.dominators(g)
-    okd = all(rnode.id in dom[w.id] and (not tests or tests[0].id in dom[w.id]) for w in wnodes) and bool(wnodes)
-    rep.ob("R20.2", "%s: what is written is the chunk just read and tested" % name, okd,
-           "read -> test -> write of the same variable" if okd else "the write is not dominated by the read and the emptiness test",
-           ctx.loc(lp))
+    cf, cs, cd, cn = f, srcv, dstv, "chunk_size"
+    if not any(isinstance(n, (ast.While, ast.For)) for n in A.walk(f.node)):
+        for c in A.calls(f.node):
+            args = [A.src(x) for x in c.args]
+            r = ctx.repo.resolve_name(f.module, A.call_name(c)) if A.call_name(c) else None
+            callee = r[1] if r and r[0] == "func" else None
+            if srcv in args and dstv in args and callee is not None and not c.keywords:
+                ps = A.params(callee.node)
+                if len(ps) >= len(args) and "chunk_size" in args:
+                    cf, cs, cd, cn = callee, ps[args.index(srcv)], ps[args.index(dstv)], ps[args.index("chunk_size")]
+                    rep.analysed(cf)
+                    break
+    copy_loop(ctx, rep, name, cf, cs, cd, cn)
     return f
+
+
+def _nonempty_label(test, buf):
+    """for a CFG test atom on the chunk: the label of the edge taken by a non-empty chunk, else None"""
+    e = test
+    if isinstance(e, ast.Name) and e.id == buf:
+        return "true"
+    if isinstance(e, ast.Call) and A.call_name(e) == "len" and len(e.args) == 1 and A.src(e.args[0]) == buf:
+        return "true"
+    if isinstance(e, ast.Compare) and len(e.ops) == 1:
+        l, r, op = A.src(e.left), A.src(e.comparators[0]), e.ops[0]
+        empties = ("b''", 'b""', "0")
+        if l == "len(%s)" % buf and r == "0" or l == buf and r in ("b''", 'b""'):
+            if isinstance(op, ast.Eq):
+                return "false"
+            if isinstance(op, (ast.NotEq, ast.Gt)):
+                return "true"
+        if l == "0" and r == "len(%s)" % buf and isinstance(op, ast.Lt):
+            return "true"
+    return None
+
+
+def copy_loop(ctx, rep, name, cf, srcv, dstv, chunk):
+    g = ctx.cfg(cf, raises=lambda a, k: set())
+    where = "" if cf.qual.endswith("." + name) else " (in %s)" % cf.name
+    reads = [n for n in g.live if n.kind == "stmt" and isinstance(n.ast, ast.Assign) and isinstance(n.ast.value, ast.Call)
+             and A.call_name(n.ast.value) == "%s.read" % srcv]
+    other_reads = [n for n in g.live if n.ast is not None and n.kind in ("stmt", "test") and n not in reads and any(
+        (A.call_name(c) or "").startswith(srcv + ".") for c in A.calls(n.ast))]
+    okr = bool(reads) and not other_reads and all(
+        isinstance(n.ast.targets[0], ast.Name) and [A.src(a) for a in n.ast.value.args] == [chunk] and not n.ast.value.keywords
+        for n in reads) and len({A.src(n.ast.targets[0]) for n in reads}) == 1
+    rep.ob("R20.2", "%s: each iteration reads one chunk of chunk_size from the source" % name, okr,
+           "`%s`%s" % (A.norm(reads[0].ast), where) if okr else
+           "the source is not read as `buf = src.read(chunk_size)` (and only so)%s" % where,
+           ctx.loc(reads[0].ast) if reads else cf.loc)
+    if not okr:
+        return
+    buf = reads[0].ast.targets[0].id
+    wnodes = [n for n in g.live if n.kind == "stmt" and n.ast is not None and any(
+        A.call_name(c) == "%s.write" % dstv for c in A.calls(n.ast))]
+    good_w = [n for n in wnodes if isinstance(n.ast, ast.Expr) and isinstance(n.ast.value, ast.Call) and
+              [A.src(x) for x in n.ast.value.args] == [buf] and not n.ast.value.keywords]
+    rd = Q.ReachingDefs(g)
+    read_ids = {n.id for n in reads}
+
+    def fresh(n):
+        ds = rd.at(n, buf)
+        return bool(ds) and all(d != "param" and d.id in read_ids for d in ds)
+    tests = {n.id: _nonempty_label(n.ast, buf) for n in g.live if n.kind == "test" and _nonempty_label(n.ast, buf) and fresh(n)}
+    okw = bool(wnodes) and len(good_w) == len(wnodes) and all(fresh(n) for n in wnodes)
+    rep.ob("R20.2", "%s: what is written is the chunk just read and tested" % name, okw and bool(tests),
+           "%s.write(%s) with %s defined only by the read" % (dstv, buf, buf) if okw and tests else
+           "the destination is written with something other than the chunk just read (or the chunk is never tested)%s" % where,
+           ctx.loc(wnodes[0].ast) if wnodes else cf.loc)
+    if not (okw and tests):
+        return
+    normal = lambda a, b, l: l != "exc"
+    nonempty = lambda a, b, l: l != "exc" and not (a.id in tests and l != tests[a.id])
+    w_ids = {n.id for n in wnodes}
+    # (a) a non-empty chunk is written before the next read / the end
+    p = Q.find_path_ef(reads, lambda n: n.id in read_ids or n is g.exit,
+                       lambda a, b, l: nonempty(a, b, l) and b.id not in w_ids)
+    # (b) never written twice
+    p2 = Q.find_path_ef(wnodes, lambda n: n.id in w_ids, lambda a, b, l: normal(a, b, l) and b.id not in read_ids)
+    # (c) the source is read at least once
+    p3 = Q.find_path_ef([g.entry], lambda n: n is g.exit, lambda a, b, l: normal(a, b, l) and b.id not in read_ids)
+    # (d) an empty chunk ends the copy
+    empty_targets = [t for n in g.live if n.id in tests for t, l in n.succ if l not in ("exc", tests[n.id])]
+    p4 = Q.find_path_ef(empty_targets, lambda n: n.id in read_ids, normal, skip_first=False) if empty_targets else None
+    okt = p is None and p2 is None and p3 is None and p4 is None and bool(empty_targets)
+    wit = p or p2 or p3 or p4
+    why = ("a non-empty chunk can reach the next read / the end without being written" if p else
+           "a chunk can be written twice" if p2 else "the copy can finish without reading the source" if p3 else
+           "an empty chunk does not end the copy" if p4 else "no exit on an empty chunk")
+    rep.ob("R20.2", "%s: an empty chunk ends the copy; every other chunk is written, unchanged, before the next read" % name, okt,
+           "read -> emptiness test -> write on every path%s" % where if okt else why + where,
+           ctx.loc(reads[0].ast), witness=ctx.path(wit) if wit else None)
+    # (e) the emptiness test is the only way out: from a read, with the empty edges removed, the end is unreachable
+    p5 = Q.find_path_ef(reads, lambda n: n is g.exit, nonempty)
+    rep.ob("R20.2", "%s: the emptiness test is the loop's only exit" % name, p5 is None,
+           "the end is reachable from a read only through the empty-chunk edge" if p5 is None else
+           "the copy loop has another exit (short files)" + where, ctx.loc(reads[0].ast),
+           witness=ctx.path(p5) if p5 else None)
 
 
 def check_dir(ctx, rep, name, local_is_src):
